@@ -426,6 +426,7 @@ def c03_jobs(tier, seed):
     for mw, grp, rt, action, cancel, kinds, deep in shapes:
         jobs.append({"pkg_short": "flamego", "body": "VH_C03_chain", "max_paths": 900000,
                      "params": {"mw": mw, "grp": grp, "rt": rt, "action": action, "cancel": cancel, "kinds": kinds, "deep": deep}})
+    jobs.append({"pkg_short": "flamego", "body": "VH_C03_step", "params": {"n": 4 if tier == "quick" else 8}, "max_paths": 200000})
     return jobs
 
 
